@@ -3,4 +3,5 @@ CONSTANTS
   MaxDepth = 1
   MutDepth = 0
   DEV_StaleKeyOnMove = FALSE
+  DEV_EqSeesDerived = FALSE
 INVARIANT Emit
